@@ -10,6 +10,7 @@
 //   kind badrec : one record byte replaced by another record id (START out of place, XNAME..XGEOMETRY, CBLOCK, unknown)
 //   kind dangle : one CELLNAME / TEXTSTRING / PROPNAME / PROPSTRING record removed (reference numbers left dangling)
 //   kind cut    : one record removed / kind dup : one record duplicated
+//   kind reader : corpus cases (corpus/C04/*.case): the witnesses of the known deviations of read_oas from the strict decoder
 // Outcome words: eof overflow invalid unsupported crash hang error<n>; dumps may start with "MISSING ;; ".
 #include <fcntl.h>
 #include <gdstk/gdstk.hpp>
@@ -510,7 +511,10 @@ int main(int argc, char** argv) {
         out.close();
         return 0;
     }
-    for (auto& c : load_corpus(argc > 4 ? argv[4] : NULL)) run_case(out, c.first, c.second);
+    // corpus first: only the cases of this unit (kind "reader", payload "<key> x<hex bytes>"); the directory is shared with
+    // harness/c04.cpp, whose kinds have other payload formats (and which ignores the kind "reader")
+    for (auto& c : load_corpus(argc > 4 ? argv[4] : NULL))
+        if (c.first == "reader") run_case(out, c.first, c.second);
     Rng g0(seed);
     Rng g(g0.next());
     char tag[96];
